@@ -1,5 +1,6 @@
 import MtblProps.Common
 import MtblProps.C01
+import MtblProofs.ToolsProofs
 /-
   C10 — The statistics in the trailer are the truth: each of the nine fields equals its recount from the file's
   actual content, refused adds are not counted, and a reader that opens the file exposes exactly these values.
@@ -112,6 +113,37 @@ theorem C10_reader_sees (cfg : WCfg) (comp : Bytes → Bytes) (decomp : Nat → 
   refine ⟨r, hopen, hm', hm'.trans hmeta, hv, ?_⟩
   rw [hm']
   exact hst
+
+
+/-- **C10, mtbl_info.**  The tool opens the file by descriptor (no verification), and its integer lines print, in this
+    order: the file size (`fstat`), then the trailer fields index block offset, index bytes, data block bytes, data block
+    size, data block count, entry count, key bytes, value bytes; the algorithm line prints the algorithm's name.
+    For a written file these are the recounted statistics of `C10_reader_sees` (the three percentage lines are floating
+    point and are not part of the statement). -/
+theorem C10_info (cfg : WCfg) (comp : Bytes → Bytes) (decomp : Nat → Bytes → Option Bytes)
+    (hw : WriterOK cfg comp decomp) (pre : Bytes) (es : List Entry) (hs : StrictSorted es)
+    (hz : SizesOK cfg comp pre es)
+    (hfit : cfg.effBlockSize < 2^64 ∧ es.length < 2^64 ∧ (es.map (·.key.length)).sum < 2^64 ∧
+      (es.map (·.val.length)).sum < 2^64)
+    (hc6 : cfg.compression < 6) :
+    let file := pre ++ Writer.run cfg pre.length es
+    ∃ r, readerOpen true cfg.thr decomp false file = .ok r ∧
+      (Tools.infoLines file.length r.m).map (·.2) =
+        [file.length,
+         pre.length + (((canonFile cfg pre es).dataFrames comp).map List.length).sum,
+         (eframe .v2 (((canonFile cfg pre es).indexBlock comp).encode cfg.thr)).length,
+         (((canonFile cfg pre es).dataFrames comp).map List.length).sum,
+         cfg.effBlockSize, (splitBlocks cfg [] es).length, es.length,
+         (es.map (·.key.length)).sum, (es.map (·.val.length)).sum] ∧
+      ∃ name, Tools.infoAlgo r.m = name ∧ Cz.typeFromStr name = some cfg.compression := by
+  intro file
+  obtain ⟨r, hopen, _, _, _, h1, h2, h3, h4, h5, h6, h7, h8, h9⟩ :=
+    C10_reader_sees cfg comp decomp hw pre es hs hz false hfit
+  refine ⟨r, hopen, ?_, ?_⟩
+  · rw [Tools.infoLines_values, h6, h5, h7, h8, h4, h1, h2, h3]
+  · have := Tools.infoAlgo_named r.m (by rw [h9]; exact hc6)
+    rw [h9] at this
+    exact this
 
 /-! ### non-vacuity: the five-block example, and the trailer a reader gets from it -/
 
